@@ -1671,7 +1671,7 @@ theorem modify_append_left {α} (l1 l2 : List α) (i : Nat) (f : α → α) (h :
   intro j
   simp only [List.getElem?_modify, List.getElem?_append, List.length_modify]
   by_cases hj : j < l1.length
-  · simp [hj, List.getElem?_modify]
+  · simp [hj]
   · simp [hj]
     have : i ≠ j := by omega
     simp [this]
@@ -1680,12 +1680,12 @@ theorem modify_append_right {α} (l1 l2 : List α) (i : Nat) (f : α → α) (h 
     (l1 ++ l2).modify i f = l1 ++ l2.modify (i - l1.length) f := by
   apply List.ext_getElem?
   intro j
-  simp only [List.getElem?_modify, List.getElem?_append, List.length_modify]
+  simp only [List.getElem?_modify, List.getElem?_append]
   by_cases hj : j < l1.length
   · simp [hj]
     have : i ≠ j := by omega
     simp [this]
-  · simp [hj, List.getElem?_modify]
+  · simp [hj]
     by_cases hij : i = j
     · subst hij; simp
     · have : i - l1.length ≠ j - l1.length := by omega
@@ -2202,5 +2202,33 @@ theorem tryStartN_compile (p : Pat) (e : Event) : tryStartN (compile p) e = (try
     by_cases hm : matchesState s0 e [] = true
     · simp [hm, toN, hsid, Run.push]
     · simp [hm]
+
+/-! ## concrete witnesses used by the property files -/
+
+/-- C02-neg-at-completion: `A as a -> B as b .not(B)` on `A B` -/
+def c02WitnessPat : Pat :=
+  { steps := [⟨"A", none, some "a", false⟩, ⟨"B", none, some "b", false⟩], partition := none, negs := [⟨"B", none⟩] }
+def c02WitnessEvs : List Event := [⟨0, "A", []⟩, ⟨1, "B", []⟩]
+
+/-- C01-trailing-all-selfref: `A as a -> all B where x > b.x as b` on `A, B{x:5}, B{x:3}, B{x:9}` -/
+def c01WitnessPat : Pat :=
+  { steps := [⟨"A", none, some "a", false⟩, ⟨"B", some (.cmpRef "x" .gt "b" "x"), some "b", true⟩], partition := none, negs := [] }
+def c01WitnessEvs : List Event :=
+  [⟨0, "A", []⟩, ⟨1, "B", [("x", .int 5)]⟩, ⟨2, "B", [("x", .int 3)]⟩, ⟨3, "B", [("x", .int 9)]⟩]
+/-- what the unrepaired engine emitted at the third event: `[A, B5, B3]` -/
+def c01WitnessBad : Match :=
+  let st : List Entry := [⟨⟨0, "A", []⟩, some "a"⟩, ⟨⟨1, "B", [("x", .int 5)]⟩, some "b"⟩, ⟨⟨2, "B", [("x", .int 3)]⟩, some "b"⟩]
+  ⟨st, capsOf st⟩
+/-- what the repaired engine emits at the fourth event: `[A, B5, B9]` -/
+def c01WitnessGood : Match :=
+  let st : List Entry := [⟨⟨0, "A", []⟩, some "a"⟩, ⟨⟨1, "B", [("x", .int 5)]⟩, some "b"⟩, ⟨⟨3, "B", [("x", .int 9)]⟩, some "b"⟩]
+  ⟨st, capsOf st⟩
+
+/-- a partitioned two-step pattern with a cross-alias filter and a `.not` clause, and a stream with one match -/
+def c01ExamplePat : Pat :=
+  { steps := [⟨"A", none, some "a", false⟩, ⟨"B", some (.cmpRef "x" .gt "a" "x"), some "b", false⟩],
+    partition := some "k", negs := [⟨"D", none⟩] }
+def c01ExampleEvs : List Event :=
+  [⟨0, "A", [("x", .int 1), ("k", .int 1)]⟩, ⟨1, "B", [("x", .int 0), ("k", .int 1)]⟩, ⟨2, "B", [("x", .int 2), ("k", .int 1)]⟩]
 
 end Varpulis.Sase
